@@ -91,6 +91,8 @@ pub struct Uci {
     /// when each entry of `log` was taken from the reader (parallel to `log`)
     pub stamps: Vec<Instant>,
     pub sent: Vec<String>,
+    /// line terminator of `send` (a Windows front end writes CR LF)
+    pub eol: &'static str,
 }
 
 impl Uci {
@@ -154,6 +156,7 @@ impl Uci {
             log: vec![],
             stamps: vec![],
             sent: vec![],
+            eol: "\n",
         })
     }
 
@@ -162,7 +165,7 @@ impl Uci {
         self.sent.push(line.to_string());
         let Some(si) = self.stdin.as_mut() else { return false };
         let mut data = line.as_bytes().to_vec();
-        data.push(b'\n');
+        data.extend_from_slice(self.eol.as_bytes());
         si.write_all(&data).and_then(|_| si.flush()).is_ok()
     }
 
